@@ -65,6 +65,16 @@ def amp_check(case):
         k, name = what[bad[0]]
         v.append(("amp:%s" % name, "nc=%d proportion=%r: %d channels %s 98%% of range -> flagged=%s, expected %s (k/nc=%s)"
                   % (nc, p, k, name, sat[bad[0]], exp[bad[0]], Fraction(k, nc))))
+    # the proportion as the number types callers hold it in (a NumPy scalar taken from an array, a ratio of NumPy integers)
+    for pp in (np.float64(p), np.float32(p) if float(np.float32(p)) == p else np.float64(p)):
+        satp, _ = voltage.saturation(data.copy(), max_voltage=V, v_per_sec=NOSLEW, fs=FS, proportion=pp, mute_window_samples=1)
+        satp = np.asarray(satp).astype(bool)
+        badp = np.flatnonzero(satp != exp) if satp.shape == exp.shape else np.array([0])
+        if badp.size:
+            k, name = what[badp[0]]
+            v.append(("amp:%s:proportion-type" % name, "nc=%d proportion=%s(%r): %d channels %s 98%% of range -> flagged=%s, expected %s"
+                      % (nc, type(pp).__name__, p, k, name, satp[badp[0]] if satp.shape == exp.shape else None, exp[badp[0]])))
+            break
     # the same call again with the same range object: same flags, range untouched
     if vmode == 1:
         Vkeep = V.copy()
